@@ -16,7 +16,7 @@ func init() {
     attributes => {
       # Fully qualified name of the function
       name  => { type => Pattern[/\A[$]?[a-z][0-9A-Za-z_]*(?:::[a-z][0-9A-Za-z_]*)*\z/] },
-      arguments => { type => Optional[Array[Any]], value => undef},
+      arguments => { type => Optional[Array[Any]], value => []},
     }}`,
 		func(ctx px.Context, args []px.Value) px.Value {
 			return newDeferred2(args...)
@@ -57,6 +57,10 @@ func newDeferred2(args ...px.Value) *deferred {
 		if as, ok := args[1].(*Array); ok {
 			return &deferred{string(name), as}
 		}
+		if args[1].Equals(undef, nil) {
+			// the declared type admits undef: no arguments
+			return &deferred{string(name), emptyArray}
+		}
 		panic(illegalArgumentType(`deferred[]`, 1, `Array`, args[1]))
 	}
 	panic(illegalArgumentType(`deferred[]`, 0, `String`, args[0]))
@@ -64,7 +68,11 @@ func newDeferred2(args ...px.Value) *deferred {
 
 func newDeferredFromHash(hash *Hash) *deferred {
 	name := hash.Get5(`name`, px.EmptyString).String()
-	arguments := hash.Get5(`arguments`, px.EmptyArray).(*Array)
+	arguments, ok := hash.Get5(`arguments`, px.EmptyArray).(*Array)
+	if !ok {
+		// undef, which the declared type admits: no arguments
+		arguments = emptyArray
+	}
 	return &deferred{name, arguments}
 }
 
